@@ -60,7 +60,7 @@ fn observe(schema: &Schema, schema_name: &str, query: &str, args: &std::collecti
     }
 }
 
-// @grid c14_grid_determinism tier=quick repeat=2 bound="every query of the corpus (4 schemas, frontend errors included): compiled twice and executed twice in one process, and the whole grid run in two separate processes (different hash seeds); schemas are re-parsed from text in each process"
+// @grid c14_grid_determinism tier=quick repeat=2 bound="every query of the corpus (4 schemas, the frontend-error corpus and 8 erroneous queries whose error carries several items): compiled twice and executed twice in one process, and the whole grid run in two separate processes (different hash seeds); schemas are re-parsed from text in each process"
 // @ob compiling the same query against the same schema yields the same compiled query or the same error, and executing it yields the same rows in the same order through the same sequence of adapter calls - across repetitions and across processes
 pub(crate) fn c14_grid_determinism() {
     let mut n = 0u64;
@@ -86,6 +86,29 @@ pub(crate) fn c14_grid_determinism() {
         let a = observe(&s1, "other", &q.query, &empty);
         assert!(a == observe(&s2, "other", &q.query, &empty), "two compilations of the same erroneous query differ");
         eprintln!("VERIF-GRID-DIGEST err:{} {:016x}", name, fnv(&a));
+        n += 1;
+    }
+    // erroneous queries whose error carries several items (the repository's error corpus has one item per error)
+    const EXTRA_ERRORS: [(&str, &str); 8] = [
+        ("five_unused_tags", r#"{ Number(max: 3) { value @output @tag(name: "echo") name @tag(name: "charlie") @tag(name: "delta") successor { value @tag(name: "bravo") name @tag(name: "alpha") } } }"#),
+        ("two_unused_tags_one_used", r#"{ Number(max: 3) { value @output @tag(name: "zulu") name @tag(name: "kilo") successor { value @tag(name: "mike") @filter(op: ">", value: ["%zulu"]) } } }"#),
+        ("three_duplicated_outputs", r#"{ Number(max: 3) { value @output(name: "a") @output(name: "b") name @output(name: "a") successor { value @output(name: "b") name @output(name: "c") predecessor { name @output(name: "c") value @output(name: "a") } } } }"#),
+        ("several_duplicated_tags", r#"{ Number(max: 3) { value @output @tag(name: "t") @tag(name: "u") name @tag(name: "t") successor { value @tag(name: "u") @filter(op: ">", value: ["%t"]) @filter(op: ">", value: ["%u"]) } } }"#),
+        ("several_filter_type_errors", r#"{ Number(max: 3) { value @output @filter(op: "has_prefix", value: ["$a"]) @filter(op: "contains", value: ["$b"]) name @filter(op: "one_of", value: ["$c"]) @filter(op: "<", value: ["$c"]) vowelsInName @filter(op: "regex", value: ["$d"]) } }"#),
+        ("several_undefined_tags", r#"{ Number(max: 3) { value @output @filter(op: ">", value: ["%nope"]) @filter(op: "<", value: ["%never"]) name @filter(op: "=", value: ["%also_not"]) } }"#),
+        ("several_bad_edge_parameters", r#"{ Number(max: "x", min: "y", extra: 3) { value @output multiple { value @output(name: "m") } } }"#),
+        ("several_nonexistent_paths", r#"{ Number(max: 3) { value @output nope @output never { value @output(name: "q") } successor { alsonot @output } } }"#),
+    ];
+    for (name, query) in EXTRA_ERRORS {
+        vk::grid_case(format_args!("extra error {}", name));
+        let text = std::fs::read_to_string("test_data/schemas/numbers.graphql").unwrap();
+        let empty = std::collections::BTreeMap::new();
+        let first = observe(&Schema::parse(&text).unwrap(), "other", query, &empty);
+        assert!(first.starts_with("frontend-error"), "harness query unexpectedly accepted");
+        for _ in 0..6 {
+            assert!(first == observe(&Schema::parse(&text).unwrap(), "other", query, &empty), "two compilations of the same erroneous query differ");
+        }
+        eprintln!("VERIF-GRID-DIGEST xerr:{} {:016x}", name, fnv(&first));
         n += 1;
     }
     vk::grid_done("c14_grid_determinism", n);
